@@ -114,6 +114,19 @@ fn compute_non_local_scalars(cfg: &il::ControlFlowGraph) -> HashSet<il::Scalar> 
                     killed.insert(scalar);
                 });
         });
+
+        // The guards of the outgoing edges are evaluated after the last
+        // instruction of the block and read scalars as well.
+        if let Ok(edges) = cfg.edges_out(block.index()) {
+            edges
+                .into_iter()
+                .filter_map(|edge| edge.condition())
+                .flat_map(|condition| condition.scalars())
+                .filter(|scalar| !killed.contains(scalar))
+                .for_each(|scalar| {
+                    non_locals.insert(scalar.clone());
+                });
+        }
     }
 
     non_locals
